@@ -235,6 +235,17 @@ fn docs_over(sets: &[Vec<(usize, usize)>], yaml: bool, nodes: &[u8]) -> Vec<Doc>
 
 pub fn replay(case: &Value) -> Result<Acc, String> {
     let mut acc = Acc::default();
+    if case["kind"] == "tagchar" {
+        // re-run the one text: the tag must contain the character
+        let text = case["text"].as_str().ok_or("no text")?;
+        let c = case["char"].as_str().and_then(|x| x.chars().next()).ok_or("no char")?;
+        acc.evals += 1;
+        let got = observe(text, Backend::Str, Api::Iter).ok().and_then(|o| if o.err.is_some() { None } else { o.evs.iter().find_map(|e| if let Ev::Sc(_, _, _, Some(t)) = &e.0 { Some(format!("{}{}", t.0, t.1)) } else { None }) });
+        if !got.as_ref().map_or(false, |g| g.contains(c)) {
+            acc.violation(Violation { key: "tags literal-char".into(), expected: format!("a tag containing {c:?}"), observed: format!("{got:?}"), case: case.clone(), size: text.len() });
+        }
+        return Ok(acc);
+    }
     if case["kind"] == "escape" {
         // re-run the one text; the expectation is recomputed from the code point
         let text = case["text"].as_str().ok_or("no text")?;
@@ -254,7 +265,7 @@ pub fn replay(case: &Value) -> Result<Acc, String> {
 
 pub fn check(tier: Tier) -> i32 {
     let mut rep = Report::new("C16", tier, "model_checking");
-    rep.rule = "abstract values: documents = (sequence of 0-3 %TAG directives over handles {!, !!, !e!, !f!} x prefixes {!loc-, tag:x.org,2000:, tag:y/}, optional %YAML 1.2 at any position among them, one of 15 tag spellings (none, '!', local, secondary, named handles, percent-encoded suffixes incl. multi-byte UTF-8, verbatim tags) on a scalar / block sequence / flow mapping); streams of 1, 2 and (thorough) 3 documents separated by '...' or a bare '---', with keep_tags off and on. Oracle: a per-document handle table (defaults, or the previous table when keep_tags is set; all directives of a document in force together; a handle repeated within a document and an undeclared named handle are errors); the tag reported for each root node, as the string handle+suffix, equals prefix + percent-decoded suffix. Non-trivial: every stream; distinct: distinct (directive sets, spellings, node kinds, separators, keep_tags).".into();
+    rep.rule = "abstract values: documents = (sequence of 0-3 %TAG directives over handles {!, !!, !e!, !f!} x prefixes {!loc-, tag:x.org,2000:, tag:y/}, optional %YAML 1.2 at any position among them, one of 15 tag spellings (none, '!', local, secondary, named handles, percent-encoded suffixes incl. multi-byte UTF-8, verbatim tags; plus every character a tag may contain literally, in suffixes, prefixes and verbatim tags) on a scalar / block sequence / flow mapping); streams of 1, 2 and (thorough) 3 documents separated by '...' or a bare '---', with keep_tags off and on. Oracle: a per-document handle table (defaults, or the previous table when keep_tags is set; all directives of a document in force together; a handle repeated within a document and an undeclared named handle are errors); the tag reported for each root node, as the string handle+suffix, equals prefix + percent-decoded suffix. Non-trivial: every stream; distinct: distinct (directive sets, spellings, node kinds, separators, keep_tags).".into();
     rep.assumptions = vec!["prefixes contain no '%' (the statement speaks of decoding the suffix only)".into(), "with keep_tags, a later document may re-declare a handle kept from an earlier document".into()];
     let budget = Budget::new(wall_cap(tier));
     rep.mandatory_scopes = 2;
@@ -347,6 +358,41 @@ pub fn check(tier: Tier) -> i32 {
     states += n;
     rep.acc.merge(acc);
     rep.scope(&format!("percent-escaped code points ({})", cps.len()), n, done == cps.len() as u64);
+    // every character a tag may contain, literally (YAML 1.2 ns-uri-char / ns-tag-char): in the suffix
+    // after the primary, the secondary and a named handle, in a %TAG prefix and in a verbatim tag
+    let word: String = ('a'..='z').chain('A'..='Z').chain('0'..='9').chain(['-']).collect();
+    let uri_only = "!,[]"; // legal in verbatim tags and prefixes, not in shorthand suffixes
+    let tag_chars: String = format!("{word}#;/?:@&=+$_.~*'()");
+    let all: Vec<(char, bool)> = tag_chars.chars().map(|c| (c, true)).chain(uri_only.chars().map(|c| (c, false))).collect();
+    let (acc, done) = par_blocks(all.len() as u64, &budget, |b, acc| {
+        let (c, in_suffix) = all[b as usize];
+        let mut cases: Vec<(String, String)> = vec![(format!("--- !<tag:a{c}b> x\n"), format!("tag:a{c}b")), (format!("%TAG !e! tag:p{c}q:\n--- !e!z x\n"), format!("tag:p{c}q:z")), (format!("%TAG !e! !p{c}q\n--- !e!z x\n"), format!("!p{c}qz"))];
+        if in_suffix {
+            cases.push((format!("--- !a{c}b x\n"), format!("!a{c}b")));
+            cases.push((format!("--- !!a{c}b x\n"), format!("tag:yaml.org,2002:a{c}b")));
+            cases.push((format!("%TAG !e! tag:e:\n--- !e!a{c}b x\n"), format!("tag:e:a{c}b")));
+            cases.push((format!("- !a{c} x\n"), format!("!a{c}")));
+        }
+        for (text, want) in cases {
+            acc.evals += 1;
+            let got = match observe(&text, Backend::Str, Api::Iter) {
+                Err(m) => Err(format!("panic: {m}")),
+                Ok(o) => match &o.err {
+                    Some(e) => Err(e.info.clone()),
+                    None => Ok(o.evs.iter().find_map(|e| if let Ev::Sc(_, _, _, Some(t)) = &e.0 { Some(format!("{}{}", t.0, t.1)) } else { None })),
+                },
+            };
+            if got != Ok(Some(want.clone())) {
+                let class = if c.is_ascii_alphanumeric() { "alnum" } else { "punct" };
+                acc.violation(Violation { key: format!("tags literal-char class={class} what={}", if got.is_err() { "rejected" } else { "wrong-tag" }), expected: want, observed: format!("{got:?}"), case: json!({"kind": "tagchar", "text": text, "char": c.to_string()}), size: text.len() });
+            }
+            acc.class(h64(&text));
+        }
+    });
+    let n = acc.evals;
+    states += n;
+    rep.acc.merge(acc);
+    rep.scope(&format!("literal tag characters ({}): suffix after 3 handle kinds, %TAG prefixes, verbatim tags", all.len()), n, done == all.len() as u64);
     rep.mc = Some((states.max(1), states.max(1), states));
     rep.extra.insert("explanation".into(), json!("states = abstract streams enumerated; traces_validated = parses on the real parser compared with the handle-table model"));
     rep.finish()
